@@ -381,6 +381,40 @@ Proof.
       split; [apply s_combine_ss_good; assumption|apply s_combine_ss_abs; assumption].
 Qed.
 
+(* the nonzero entries a row iterator visits are the stored entries of the sparse copy of the row *)
+Lemma filter_map_comm : forall (A B : Type) (g : A -> B) (p : B -> bool) (L : list A),
+  filter p (map g L) = map g (filter (fun a => p (g a)) L).
+Proof.
+  intros A B g p L. induction L as [|a r IH]; cbn [map filter]; [reflexivity|].
+  destruct (p (g a)); cbn [map]; rewrite IH; reflexivity.
+Qed.
+Lemma nzlist_coef_ext : forall f l x x', (forall i, acoef x i = acoef x' i) -> nzlist f l x = nzlist f l x'.
+Proof.
+  intros f l x x' H. unfold nzlist.
+  rewrite (filter_ext (fun i => negb (acoef x i =? 0)) (fun i => negb (acoef x' i =? 0)))
+    by (intro i; rewrite H; reflexivity).
+  apply map_ext. intro i. rewrite H. reflexivity.
+Qed.
+Lemma filter_nz_nzlist : forall f l x, filter nz_entry (nzlist f l x) = nzlist f l x.
+Proof.
+  intros f l x. unfold nzlist. rewrite filter_map_comm. f_equal.
+  induction (seq f (l - f)) as [|i r IH]; cbn [filter]; [reflexivity|].
+  destruct (negb (acoef x i =? 0)) eqn:E; cbn [filter]; [|exact IH].
+  unfold nz_entry at 1. cbn [snd]. rewrite E. rewrite IH. reflexivity.
+Qed.
+Lemma filter_nz_visited : forall f l y, good y ->
+  filter nz_entry (visited f l y) = stored_in f l (to_sparse y).
+Proof.
+  intros f l y Hg. destruct (convert_good true y Hg) as [Hgt Hat]. cbn [convert] in Hgt, Hat.
+  destruct Hgt as [Hwt Hnt]. cbn [abs_e] in Hat.
+  rewrite (stored_char f l (to_sparse y) Hwt Hnt).
+  rewrite (nzlist_coef_ext f l (abs_s (to_sparse y)) (abs_e y)) by (destruct Hat as [_ H]; exact H).
+  destruct y as [d|s].
+  - cbn [visited]. rewrite filter_map_comm. unfold nzlist. cbn [abs_e abs_d acoef].
+    unfold nz_entry. cbn [snd]. reflexivity.
+  - cbn [visited]. destruct Hg as [W NZ]. rewrite (stored_char f l s W NZ). apply filter_nz_nzlist.
+Qed.
+
 Lemma bop_spec_all : forall b, bop_spec b.
 Proof.
   intros b x y Hgx Hgy Hok Hu. destruct b; cbn [apply_bop a_bop]; cbn [bop_ok] in Hok.
@@ -407,8 +441,13 @@ Proof.
     cbn [uop_ok]. apply andb_true_iff. split; [apply Nat.leb_le|apply Nat.leb_le]; assumption.
   - bools. destruct x as [d|s].
     + split; [exact I|]. unfold ecoef. apply d_combine_abs. assumption.
-    + destruct y as [d'|t]; [cbn in Hu; discriminate|]. destruct Hgx as [Hwx Hnx]. destruct Hgy as [Hwy Hny].
-      cbn [visited good]. split; [apply s_lax0_good; assumption|apply s_lax0_abs; assumption].
+    + destruct Hgx as [Hwx Hnx].
+      destruct (convert_good true y Hgy) as [Hgt Hat]. cbn [convert] in Hgt, Hat.
+      destruct Hgt as [Hwt Hnt]. cbn [abs_e] in Hat.
+      rewrite (filter_nz_visited first last y Hgy).
+      split; [apply s_lax0_good; assumption|].
+      eapply aeq_trans; [apply s_lax0_abs; assumption|].
+      apply a_combine_aeq; [apply aeq_refl|exact Hat].
 Qed.
 
 Lemma obs1_spec_all : forall o, obs1_spec o.
@@ -632,22 +671,10 @@ Proof.
 Qed.
 
 (* ================================================================== *)
-(* PART C.5 -- the two excluded combinations are really observable      *)
+(* PART C.5 -- (formerly: the excluded combinations; both are repaired)   *)
 (* ================================================================== *)
 
-Theorem lax_mixed_refuted : exists rho h, outputs rho h <> outputs (fun _ => false) h.
-Proof.
-  exists (fun r => (r =? 0)%nat),
-         [New 0 3; New 1 3; Un 1 (USet 0 2); Bin 0 1 (BLax0 3 0 3); Obs1 0 (OAllZeroes 1 3)].
-  vm_compute. discriminate.
-Qed.
 
-Theorem trunc_copy_refuted : exists rho h, outputs rho h <> outputs (fun _ => false) h.
-Proof.
-  exists (fun r => (r =? 0)%nat),
-         [New 1 5; Un 1 (USet 4 6); CopySized 0 1 3; Obs1 0 OLastNZAll].
-  vm_compute. discriminate.
-Qed.
 
 (* ================================================================== *)
 (* PART C.6                                                            *)
@@ -681,4 +708,25 @@ Theorem dense_sparse_interchangeable : forall rho1 rho2 h,
 Proof.
   intros rho1 rho2 h U1 U2.
   apply dense_sparse_interchangeable_covered; [apply forallb_covered_all | exact U1 | exact U2].
+Qed.
+
+(* ================================================================== *)
+(* PART C.8 -- no operation is unsafe any more                          *)
+(* ================================================================== *)
+
+Lemma step_never_unsafe : forall rho st o, snd (step rho st o) = false.
+Proof.
+  intros rho st o. destruct o; cbn [step bop_unsafe copy_unsafe];
+    repeat match goal with |- context [if ?c then _ else _] => destruct c end; reflexivity.
+Qed.
+Lemma run_never_unsafe : forall rho h st, snd (run rho st h) = false.
+Proof.
+  intros rho h. induction h as [|o r IH]; intros st; cbn [run]; [reflexivity|].
+  pose proof (step_never_unsafe rho st o) as Hs.
+  destruct (step rho st o) as [[st' out] u]. cbn [snd] in Hs. subst u.
+  specialize (IH st'). destruct (run rho st' r) as [outs us]. cbn [snd] in IH. subst us. reflexivity.
+Qed.
+Theorem dense_sparse_interchangeable_all : forall rho1 rho2 h, outputs rho1 h = outputs rho2 h.
+Proof.
+  intros rho1 rho2 h. apply dense_sparse_interchangeable; unfold unsafe; apply run_never_unsafe.
 Qed.
